@@ -220,10 +220,9 @@ type refComp struct {
 	coefs  [][64]int
 }
 
-// refEncode encodes planes (full resolution, one per component, w*h samples each).
-func refEncode(planes [][]byte, w, h int, o refOpts) []byte {
-	nc := len(planes)
-	comps := make([]*refComp, nc)
+// refLayout sets sampling factors and the MCU grid for nc components.
+func refLayout(nc, w, h int, o refOpts) (comps []*refComp, mcuCols, mcuRows int) {
+	comps = make([]*refComp, nc)
 	maxH, maxV := 1, 1
 	for i := range comps {
 		c := &refComp{h: 1, v: 1}
@@ -243,14 +242,25 @@ func refEncode(planes [][]byte, w, h int, o refOpts) []byte {
 		}
 		maxH, maxV = comps[0].h, comps[0].v
 	}
-	mcuCols := (w + 8*maxH - 1) / (8 * maxH)
-	mcuRows := (h + 8*maxV - 1) / (8 * maxV)
+	mcuCols = (w + 8*maxH - 1) / (8 * maxH)
+	mcuRows = (h + 8*maxV - 1) / (8 * maxV)
+	for _, c := range comps {
+		c.bw, c.bh = mcuCols*c.h*8, mcuRows*c.v*8
+		c.coefs = make([][64]int, (c.bw/8)*(c.bh/8))
+	}
+	return
+}
+
+// refEncode encodes planes (full resolution, one per component, w*h samples each).
+func refEncode(planes [][]byte, w, h int, o refOpts) []byte {
+	nc := len(planes)
+	comps, mcuCols, mcuRows := refLayout(nc, w, h, o)
+	maxH, maxV := comps[0].h, comps[0].v
 	qt := [2][64]int{refScaleQuant(0, o.Quality), refScaleQuant(1, o.Quality)}
 
 	// planes: subsample by box average of the edge-replicated source, pad to the MCU grid
 	for i, c := range comps {
 		sx, sy := maxH/c.h, maxV/c.v
-		c.bw, c.bh = mcuCols*c.h*8, mcuRows*c.v*8
 		c.plane = make([]int, c.bw*c.bh)
 		for y := 0; y < c.bh; y++ {
 			for x := 0; x < c.bw; x++ {
@@ -264,9 +274,8 @@ func refEncode(planes [][]byte, w, h int, o refOpts) []byte {
 				c.plane[y*c.bw+x] = (s + sx*sy/2) / (sx * sy)
 			}
 		}
-		// transform + quantise every block, stored in scan (MCU) order per component later
+		// transform + quantise every block of the component's grid
 		nbx, nby := c.bw/8, c.bh/8
-		c.coefs = make([][64]int, nbx*nby)
 		for by := 0; by < nby; by++ {
 			for bx := 0; bx < nbx; bx++ {
 				var blk [64]float64
@@ -289,7 +298,14 @@ func refEncode(planes [][]byte, w, h int, o refOpts) []byte {
 			}
 		}
 	}
+	return refEmit(comps, mcuCols, mcuRows, w, h, o)
+}
 
+// refEmit entropy-codes the quantised coefficient grids (c.coefs, row-major over the
+// component's MCU-padded block grid) and writes the stream.
+func refEmit(comps []*refComp, mcuCols, mcuRows, w, h int, o refOpts) []byte {
+	nc := len(comps)
+	qt := [2][64]int{refScaleQuant(0, o.Quality), refScaleQuant(1, o.Quality)}
 	// scan order walk, shared by the statistics pass and the coding pass
 	type sym struct {
 		comp  int
